@@ -1,5 +1,6 @@
 """Lgre (layer sub-check: GRE) configuration for ./check"""
 CONF = {
+    'coq_sample': 15,   # cases re-evaluated inside Coq by vm_compute against the extracted runner's output
     'interesting': ['truncated-prefix-of-valid', 'option-length-extreme', 'residue-options', 'routing', 'routing-and-ack',
                     'odd-payload', 'dirty-buffer', 'no-fixlengths', 'error-after-add', 'error-residue', 'dispatch-table'],
     'rule': 'GRE headers built field by field by the harness for all 64 combinations of the six flag bits with 0..3 source-route '
